@@ -423,7 +423,6 @@ def c03 (a b : Bytes) (pobs mobs : Obs) : Verdict :=
   match parseValueOf a, parseValueOf b with
   | some av, some bv =>
     if !(av.noDup && bv.noDup) then .unspec
-    else if av.isNull || bv.isNull then .unspec
     else if !createShape av bv then
       (match pobs with | .err _ => .ok | _ => .viol "should-reject")
     else
